@@ -25,7 +25,7 @@ TARGET = "the/target:pid"
 
 
 def examples(tier):
-    return 1400 if tier == "quick" else 30000
+    return 1400 if tier == "quick" else 100000
 
 
 def _other_ops(algo):
